@@ -56,7 +56,189 @@ func (c17) Plan(tier string, seed uint64) []core.Case {
 			cases = append(cases, core.Case{ID: fmt.Sprintf("C17/n%d/%d", n, rep), Engine: "mixed", Seed: core.Derive(seed, uint64(i), uint64(rep)).Uint64(), P: map[string]interface{}{"n": n, "per": per, "race": tier == "thorough" && rep%2 == 1}, TimeoutS: 300})
 		}
 	}
+	// a server assembled with ServerBuilder (AutoReplyPings + catch-all handlers): concurrent pings from every session,
+	// and handlers whose answers fail on one session while other sessions are being answered
+	nb := 2
+	if tier == "thorough" {
+		nb = 8
+	}
+	for i := 0; i < nb; i++ {
+		cases = append(cases, core.Case{ID: fmt.Sprintf("C17/builder/%d", i), Engine: "builder", Seed: core.Derive(seed, 50, uint64(i)).Uint64(), P: map[string]interface{}{"n": 8, "per": 250, "race": tier == "thorough" && i%2 == 1}, TimeoutS: 300})
+	}
 	return cases
+}
+
+// builderEngine: see Plan.
+func (p c17) builderEngine(r *core.Result, c core.Case) {
+	n, per := c.Int("n", 8), c.Int("per", 250)
+	var catchAll int64
+	b := lime.NewServerBuilder().
+		AutoReplyPings().
+		RequestCommandsHandlerFunc(func(ctx context.Context, cmd *lime.RequestCommand, sd lime.Sender) error {
+			atomic.AddInt64(&catchAll, 1)
+			return sd.SendResponseCommand(ctx, cmd.FailureResponse(&lime.Reason{Code: 99, Description: "catch-all"}))
+		}).
+		MessagesHandlerFunc(func(ctx context.Context, m *lime.Message, sd lime.Sender) error {
+			sid, _ := lime.ContextSessionID(ctx)
+			if strings.HasPrefix(m.ID, "failreply-") {
+				// an answer that cannot be sent: its context is already over
+				dead, dc := context.WithCancel(ctx)
+				dc()
+				secret := &lime.Message{}
+				secret.ID = "secret-of-" + sid
+				secret.SetContent(lime.TextDocument("only for session " + sid))
+				_ = sd.SendMessage(dead, secret)
+				return nil
+			}
+			echo := &lime.Message{}
+			echo.ID = "echo-" + m.ID
+			echo.SetContent(lime.TextDocument(sid))
+			return sd.SendMessage(ctx, echo)
+		})
+	mux := b.ListenInProcess(rig.NewInProcAddr()).Build().VerifMux() // never started: only the handler table it assembled
+	cfg := rig.DefaultServerConfig()
+	cfg.ChannelBufferSize = 8
+	flavours := []string{rig.TCP, rig.WS, rig.InProc}
+	sr, err := rig.StartServer(cfg, mux, flavours, 0)
+	if err != nil {
+		r.Verdict = core.Inconclusive
+		r.Note = err.Error()
+		return
+	}
+	defer sr.Close(20 * time.Second)
+	ctx, cancel := context.WithTimeout(context.Background(), 120*time.Second)
+	defer cancel()
+	type res struct{ key, detail string }
+	var mu sync.Mutex
+	var bad []res
+	violate := func(k, d string) {
+		mu.Lock()
+		if len(bad) < 12 {
+			bad = append(bad, res{k, d})
+		}
+		mu.Unlock()
+	}
+	var pings, echoes, failReplies int64
+	var wg sync.WaitGroup
+	for i := 0; i < n; i++ {
+		f := flavours[i%len(flavours)]
+		if i < 4 {
+			f = rig.TCP // the sessions that share one kind of connection
+		}
+		name := fmt.Sprintf("cli%02d", i)
+		cc, ses, err := sr.EstablishClient(ctx, f, 8, 8, lime.Identity{Name: name, Domain: "verif.local"}, "i")
+		if err != nil {
+			r.Verdict = core.Inconclusive
+			r.Note = "establish: " + err.Error()
+			return
+		}
+		me := ses.To
+		wg.Add(1)
+		go func(i int, cc *lime.ClientChannel, sid string) {
+			defer wg.Done()
+			defer cc.Close()
+			go func() {
+				for range cc.NotChan() {
+				}
+			}()
+			go func() {
+				for range cc.ReqCmdChan() {
+				}
+			}()
+			for k := 0; k < per; k++ {
+				octx, oc := context.WithTimeout(ctx, 20*time.Second)
+				switch {
+				case k%5 == 4 && i%2 == 0:
+					// this session makes the server's answer fail
+					m := &lime.Message{}
+					m.ID = fmt.Sprintf("failreply-%s-%d", name, k)
+					m.SetContent(lime.TextDocument("x"))
+					_ = cc.SendMessage(octx, m)
+					atomic.AddInt64(&failReplies, 1)
+				case k%2 == 0:
+					req := &lime.RequestCommand{}
+					req.ID = fmt.Sprintf("%s-p%d", name, k)
+					req.From = me
+					req.Method = lime.CommandMethodGet
+					req.SetURIString("/ping")
+					if err := cc.SendRequestCommand(octx, req); err != nil {
+						violate("C17/builder/send-failed", fmt.Sprintf("%s: ping could not be sent: %v", name, err))
+						oc()
+						return
+					}
+					select {
+					case resp, ok := <-cc.RespCmdChan():
+						atomic.AddInt64(&pings, 1)
+						switch {
+						case !ok:
+							violate("C17/builder/session-lost", fmt.Sprintf("%s (session %s): the response stream ended while waiting for the answer to %s", name, sid, req.ID))
+							oc()
+							return
+						case resp.ID != req.ID:
+							violate("C17/builder/foreign-response", fmt.Sprintf("%s (session %s) asked %s and received the answer with id %q, to %q", name, sid, req.ID, resp.ID, resp.To.String()))
+						case resp.To != me:
+							violate("C17/builder/foreign-address", fmt.Sprintf("%s (session %s, node %s) received the answer to its own ping %s addressed to %q", name, sid, me.String(), req.ID, resp.To.String()))
+						case resp.Status != lime.CommandStatusSuccess:
+							violate("C17/builder/ping-not-auto-replied", fmt.Sprintf("%s: the ping %s was answered with status %s (reason %v): AutoReplyPings was registered before the catch-all", name, req.ID, resp.Status, resp.Reason))
+						}
+					case <-octx.Done():
+						violate("C17/builder/no-answer", fmt.Sprintf("%s (session %s): no answer to ping %s within 20 s", name, sid, req.ID))
+						oc()
+						return
+					}
+				default:
+					m := &lime.Message{}
+					m.ID = fmt.Sprintf("%s-m%d", name, k)
+					m.SetContent(lime.TextDocument("x"))
+					if err := cc.SendMessage(octx, m); err != nil {
+						violate("C17/builder/send-failed", fmt.Sprintf("%s: message could not be sent: %v", name, err))
+						oc()
+						return
+					}
+					select {
+					case got, ok := <-cc.MsgChan():
+						atomic.AddInt64(&echoes, 1)
+						switch {
+						case !ok:
+							violate("C17/builder/session-lost", fmt.Sprintf("%s (session %s): the message stream ended while waiting for the echo of %s", name, sid, m.ID))
+							oc()
+							return
+						case got.ID != "echo-"+m.ID:
+							violate("C17/builder/foreign-message", fmt.Sprintf("%s (session %s) sent %s and received message %q with content %v", name, sid, m.ID, got.ID, got.Content))
+						default:
+							txt := ""
+							switch td := got.Content.(type) {
+							case *lime.TextDocument:
+								txt = string(*td)
+							case lime.TextDocument: // the in-process transport hands over the value itself
+								txt = string(td)
+							}
+							if txt != sid {
+								violate("C17/builder/foreign-session-in-echo", fmt.Sprintf("%s (session %s): the echo of %s names session %v", name, sid, m.ID, got.Content))
+							}
+						}
+					case <-octx.Done():
+						violate("C17/builder/no-answer", fmt.Sprintf("%s (session %s): no echo of %s within 20 s", name, sid, m.ID))
+						oc()
+						return
+					}
+				}
+				oc()
+			}
+		}(i, cc, ses.ID)
+	}
+	wg.Wait()
+	for _, b := range bad {
+		r.Violate(b.key, b.detail)
+	}
+	r.Evals++
+	r.Count("sessions", n)
+	r.Count("reports_checked", int(pings+echoes))
+	r.Count("builder_pings", int(pings))
+	r.Count("builder_echoes", int(echoes))
+	r.Count("builder_failed_replies", int(failReplies))
+	r.Count("builder_catch_all_hits", int(atomic.LoadInt64(&catchAll)))
+	r.Fingerprints = append(r.Fingerprints, fmt.Sprintf("builder|%d|%d", n, c.Seed%100000))
 }
 
 type c17report struct {
@@ -76,6 +258,10 @@ type c17report struct {
 func (p c17) Run(c core.Case) core.Result {
 	var r core.Result
 	r.Verdict = core.Held
+	if c.Engine == "builder" {
+		p.builderEngine(&r, c)
+		return r
+	}
 	n := c.Int("n", 4)
 	per := c.Int("per", 20)
 	rng := core.NewRng(c.Seed)
